@@ -112,8 +112,11 @@ func RunCases(e Engine, cases []Case, dir string) (*Stats, error) {
 		fmt.Fprintf(rw, "# case %d\n", ci)
 		for oi, op := range c.Ops {
 			st.Ops++
-			reply, viol := SafeExec(r, op)
+			// the op line is on disk BEFORE the real code runs it: if the process dies (a panic in a goroutine of
+			// the code under test cannot be recovered), the tail of ops.txt is the crashing input
 			fmt.Fprintln(ow, op)
+			ow.Flush()
+			reply, viol := SafeExec(r, op)
 			fmt.Fprintln(rw, reply)
 			st.OpKinds[firstWord(op)]++
 			st.ReplyKinds[replyKind(reply)]++
